@@ -156,3 +156,78 @@ Fixpoint run_selects (s : stream) (x : item) (sel : list (list selcase)) (chs : 
 Definition recv_shape_model : list string := [ "item,ok:=<-s.items"; "if!ok{item.err=io.EOF}"; "returnitem.chunk,item.err" ]%string.
 Definition close_send_model : string := "close(s.items)"%string.
 Definition close_recv_model : string := "close(s.closed)"%string.
+
+(* ------------------------------------------------------------------ the shared list of a copy parent
+
+   [parentStreamReader.peek] works on a singly linked list of [cpStreamElement]s; every child holds
+   a pointer into it ([subStreamList]).  Go-level picture: a heap of elements addressed by their
+   allocation number; [ge_done] = the element's sync.Once has run. *)
+Record gelem : Type := mkGe { ge_done : bool; ge_item : gopair; ge_next : option nat }.
+Record gparent : Type := mkGp { gp_elems : list gelem; gp_sub : list (option nat) }.
+Definition ge_empty : gelem := mkGe false (0%N, ENil) None.           (* &cpStreamElement[T]{} *)
+Definition deref (p : gparent) (e : option nat) : gelem :=
+  match e with Some a => nth a (gp_elems p) ge_empty | None => ge_empty end.
+Definition set_ge (p : gparent) (e : option nat) (g : gelem) : gparent :=
+  match e with Some a => mkGp (upd (gp_elems p) a g) (gp_sub p) | None => p end.
+Definition set_gp_sub (p : gparent) (l : list (option nat)) : gparent := mkGp (gp_elems p) l.
+(* elem.item = streamItem[T]{chunk, err} *)
+Definition ge_set_item (p : gparent) (e : option nat) (it : gopair) : gparent :=
+  set_ge p e (mkGe (ge_done (deref p e)) it (ge_next (deref p e))).
+(* elem.next = &cpStreamElement[T]{} *)
+Definition ge_set_next_new (p : gparent) (e : option nat) : gparent :=
+  let a := List.length (gp_elems p) in
+  set_ge (mkGp (gp_elems p ++ [ge_empty]) (gp_sub p)) e (mkGe (ge_done (deref p e)) (ge_item (deref p e)) (Some a)).
+(* the end of elem.once.Do *)
+Definition ge_mark_done (p : gparent) (e : option nat) : gparent :=
+  set_ge p e (mkGe true (ge_item (deref p e)) (ge_next (deref p e))).
+Definition ERecvAfterClosed : goerr := EErr err_after_closed.
+
+(* the model's parent as that heap: element c < len holds item c and points to c+1; the last
+   element is the unfilled tail, or the filled end-of-stream element *)
+Fixpoint abs_from (c : nat) (items : list item) (eof : bool) : list gelem :=
+  match items with
+  | [] => [if eof then mkGe true eof_pair None else ge_empty]
+  | x :: r => mkGe true (pair_of_item x) (Some (S c)) :: abs_from (S c) r eof
+  end.
+Definition abs_parent (P : parent) : gparent := mkGp (abs_from 0 (p_items P) (p_eof P)) (p_cur P).
+
+(* ------------------------------------------------------------------ MergeStreamReaders
+
+   The accumulator of the loop over the arguments: the two local slices and, for the calls that
+   create objects (toStream, newStream), the store and the forwarder goroutines. *)
+Record macc : Type := mkMacc { m_st : store; m_fw : list fwd; m_ss : list nat; m_arr : list N }.
+Definition set_m_ss (a : macc) (l : list nat) : macc := mkMacc (m_st a) (m_fw a) l (m_arr a).
+Definition set_m_arr (a : macc) (l : list N) : macc := mkMacc (m_st a) (m_fw a) (m_ss a) l.
+
+Inductive rtyp : Type := TStream | TArray | TMulti | TConv | TChild.
+Definition rd_typ (t : rd) : rtyp :=
+  match t with RStr _ => TStream | RArr _ _ => TArray | RMul _ _ => TMulti | RConv _ _ _ _ => TConv | RChild _ _ => TChild end.
+Definition rd_st (t : rd) : nat := match t with RStr s => s | _ => 0 end.                       (* sr.st *)
+Definition rd_arr (t : rd) : list N := match t with RArr _ rest => rest | _ => [] end.          (* sr.ar.arr, seen from the reader's position *)
+Definition rd_index (t : rd) : nat := 0.                                                         (* sr.ar.index, relative to that *)
+Definition rd_sts (t : rd) : list nat := match t with RMul sts _ => sts | _ => [] end.         (* sr.msr.sts *)
+
+(* sr.srw.toStream() / sr.csr.toStream(): a new stream of the given capacity and a goroutine that
+   forwards the reader into it; the stream is the result *)
+Definition to_stream (cap : nat) (a : macc) (t : rd) : macc * nat :=
+  let sid := List.length (streams (m_st a)) in
+  (mkMacc (add_stream (m_st a) (new_stream cap false)) (m_fw a ++ [mkF t sid FRecv false]) (m_ss a) (m_arr a), sid).
+(* s := newStream[T](cap) *)
+Definition new_stream_in (a : macc) (cap : nat) : macc * nat :=
+  let sid := List.length (streams (m_st a)) in
+  (mkMacc (add_stream (m_st a) (new_stream cap false)) (m_fw a) (m_ss a) (m_arr a), sid).
+(* s.send(chunk, nil) / s.closeSend() on a stream of the accumulator's store *)
+Definition stream_send_in (a : macc) (sid : nat) (p : gopair) : macc :=
+  match nth_error (streams (m_st a)) sid, see p with
+  | Some s, SeenItem x => mkMacc (set_stream (m_st a) sid (snd (stream_send s x))) (m_fw a) (m_ss a) (m_arr a)
+  | _, _ => a
+  end.
+Definition close_send_in (a : macc) (sid : nat) : macc :=
+  match nth_error (streams (m_st a)) sid with
+  | Some s => mkMacc (set_stream (m_st a) sid (snd (stream_close_send s))) (m_fw a) (m_ss a) (m_arr a)
+  | None => a
+  end.
+(* &StreamReader[T]{typ: readerTypeArray, ar: &arrayReader[T]{arr, index}} / {typ: readerTypeMultiStream, msr} *)
+Definition mk_array_reader (arr : list N) (index : nat) : rd := RArr [] (skipn index arr).
+Definition mk_multi_reader (m : msrd) : rd := RMul (msr_sts m) (msr_chosenList m).
+Definition rd_nil : rd := RArr [] [].   (* placeholder for an index out of range *)
